@@ -83,6 +83,22 @@ func init() {
 			f.vals[t] = Val{T: []Term{r}, Typ: t.Type()}
 		}
 	}
+	for _, n := range []string{"strings.IndexByte", "strings.Index", "strings.LastIndex", "strings.LastIndexByte", "strings.IndexRune", "bytes.IndexByte", "bytes.Index"} {
+		isBytes := strings.HasPrefix(n, "bytes.")
+		models[n] = func(f *frame, t *ssa.Call, args []Val) {
+			x := f.x
+			r := x.S.Declare("index", SBV(64))
+			var ls Term
+			if isBytes {
+				ls = args[0].T[2]
+			} else {
+				ls = x.strLen(args[0].One())
+			}
+			// law: -1 or a valid position
+			f.assume(Or(Eq(r, BVInt(-1, 64)), BVCmp("bvult", r, ls)))
+			f.vals[t] = Val{T: []Term{r}, Typ: t.Type()}
+		}
+	}
 	models["bytes.Equal"] = func(f *frame, t *ssa.Call, args []Val) {
 		f.set(t, scalar(f.x.bytesEqual(f, args[0], args[1]), t.Type()))
 	}
@@ -103,6 +119,14 @@ func init() {
 			f.x.note("sync locks are no-ops: execution is modelled as single-threaded")
 			f.vals[t] = Val{Typ: t.Type()}
 		}
+	}
+	// ed25519.Verify panics unless the public key has exactly 32 bytes; its verdict is an uninterpreted function
+	models["crypto/ed25519.Verify"] = func(f *frame, t *ssa.Call, args []Val) {
+		x := f.x
+		f.safe("ed25519", t.Pos(), isCallExpr, Eq(args[0].T[2], BVInt(32, 64)), "ed25519.Verify panics on a public key whose length is not 32")
+		x.S.DeclareFun("ed25519verify", []Sort{SArr(SBV(64), SBV(8)), SArr(SBV(64), SBV(8)), SBV(64), SArr(SBV(64), SBV(8)), SBV(64)}, SBool)
+		r := app(SBool, "ed25519verify", x.normBytes(f.cur.heap, args[0]), x.normBytes(f.cur.heap, args[1]), args[1].T[2], x.normBytes(f.cur.heap, args[2]), args[2].T[2])
+		f.set(t, scalar(r, t.Type()))
 	}
 	// io.ReadFull(r, buf): fills buf from the reader or fails; only buf's backing array is written
 	models["io.ReadFull"] = func(f *frame, t *ssa.Call, args []Val) {
